@@ -11,6 +11,14 @@ Oracle (pairwise form of the statement): positions sorted with a comparator that
 keys in order - None after every value (before, if not na_last) whatever the direction, otherwise
 ascending / descending as requested - and falls back to the original position on a full tie.
 Also: input not modified; sorting the sorted result again with the same arguments changes nothing.
+
+Keys given as DERIVED or EXTERNAL vectors that carry a column's name (op 'derived'): `-t.age`,
+`abs(t.age)` (both are named 'age'), an external Vector named 'age' with other values, and either of
+two columns that share a name, passed as the vector object t.cols()[i]: the rows must be ordered by
+the values of the vector actually passed, never by the stored column of that name.
+Tie blocks (op 'table', keys without None): multi-key sorts in which a key that is not the last one
+has ties, under every per-key direction combination, so that the later keys must break the ties
+of a DESCENDING earlier key in their own direction.
 """
 from relational_common import *  # noqa
 
@@ -34,6 +42,43 @@ def table_blocks(tier):
 
 
 MODES3 = ['name', 'col', 'ext']
+
+# ---- keys that are derived / external vectors named like a column ----
+DERIVED_VALS = [None, -2, -1, 1]
+DERIVED_FORMS = ['neg', 'abs', 'ext-named', 'dup-second', 'dup-first']
+
+
+def derived_cases(tier):
+    settings = [(rev, nl, il) for rev in (False, True) for nl in (True, False) for il in (False, True)]
+    full_hi = 3 if tier == 'quick' else 4
+    top = 4 if tier == 'quick' else 5
+    idx = 0
+    for n in range(0, top + 1):
+        for combo in itertools.product(DERIVED_VALS, repeat=n):
+            for fi, form in enumerate(DERIVED_FORMS):
+                idx += 1
+                chosen = settings if n <= full_hi else [settings[(idx * 2 + j) % len(settings)] for j in range(2)]
+                for rev, nl, il in chosen:
+                    yield {'op': 'derived', 'form': form, 'vals': list(combo), 'reverse': rev, 'na_last': nl, 'in_list': il}
+
+
+def tie_cases(tier):
+    """Keys without None; only tables in which a key that is not the last one has a tie."""
+    blocks = [(2, [0, 1, 2], 3, 3), (2, [0, 1], 4, 4), (3, [0, 1], 3, 3)] if tier == 'quick' else \
+             [(2, [0, 1, 2], 3, 4), (2, [0, 1], 5, 5), (3, [0, 1], 3, 4)]
+    for nk, vals, lo, hi in blocks:
+        per_row = [list(k) for k in itertools.product(vals, repeat=nk)]
+        revs = [list(c) for c in itertools.product([False, True], repeat=nk)]
+        idx = 0
+        for n in range(lo, hi + 1):
+            for combo in itertools.product(per_row, repeat=n):
+                rows = [list(r) for r in combo]
+                if not any(len({r[j] for r in rows}) < n for j in range(nk - 1)):
+                    continue
+                idx += 1
+                for ri, rev in enumerate(revs):
+                    yield {'op': 'table', 'nk': nk, 'rows': rows, 'reverse': rev, 'na_last': bool((idx + ri) % 2),
+                           'mode': MODES3[(idx + ri) % 3], 'block': 'ties'}
 
 
 def cases(tier, seed):
@@ -59,6 +104,8 @@ def cases(tier, seed):
                 for rev in (False, True):
                     for nl in (True, False):
                         yield {'op': 'vector', 'pool': label, 'vals': lit([pool[i] for i in combo]), 'reverse': rev, 'na_last': nl}
+    yield from derived_cases(tier)
+    yield from tie_cases(tier)
 
 
 def rev_list(rev, nk):
@@ -192,7 +239,83 @@ def eval_vector(case):
     return fails
 
 
+def eval_derived(case):
+    form, vals, rev, na_last, in_list = case['form'], case['vals'], case['reverse'], case['na_last'], case['in_list']
+    n = len(vals)
+    other = list(reversed(vals))            # the stored column of the same name holds OTHER values
+    src = {'neg': '-t.age', 'abs': 'abs(t.age)', 'ext-named': f"Vector({other}, name='age')",
+           'dup-second': 't.cols()[2] (second of two columns named x)', 'dup-first': 't.cols()[1] (first of two columns named x)'}[form]
+    site = 'Table.sort_by:duplicate-name-column-key' if form.startswith('dup') else 'Table.sort_by:named-vector-key'
+    revs = [False, bool(rev)] if in_list else [bool(rev)]
+    try:
+        pos = Vector(list(range(n)), name='pos')
+        g = Vector([0] * n, name='g')
+        tag = Vector([f'r{i}' for i in range(n)], name='tag')
+        if form.startswith('dup'):
+            t = Table([pos, Vector(other, name='x'), Vector(list(vals), name='x'), g, tag])
+            key_vec = t.cols()[2] if form == 'dup-second' else t.cols()[1]
+            want_key = list(vals) if form == 'dup-second' else other
+            shown = f"Table(pos=0..{n - 1}, x={other}, x={vals}, g, tag)"
+        else:
+            t = Table([pos, Vector(list(vals), name='age'), g, tag])
+            shown = f"Table(pos=0..{n - 1}, age={vals}, g, tag)"
+            if form == 'neg':
+                key_vec = -t.age
+                want_key = [None if v is None else -v for v in vals]
+            elif form == 'abs':
+                key_vec = abs(t.age)
+                want_key = [None if v is None else abs(v) for v in vals]
+            else:
+                key_vec = Vector(other, name='age')
+                want_key = other
+        in_rows = rows_of(t)
+        keyvals = list(key_vec._underlying)
+    except Exception as e:
+        # building the operands (table, negation, abs) is not the operation under test
+        return [] if n == 0 else [Fail(f'{PID}:setup:raises:{type(e).__name__}', f'derived key {src} over {vals}: building the operands raised {e!r}', None, repr(e))]
+    if keyvals != want_key:
+        return []           # the derived vector itself is not what plain Python computes: not C14's subject
+    by = ['g', key_vec] if in_list else key_vec
+    rev_arg = list(revs) if in_list else rev
+    descr = f'{shown}.sort_by({"[g, " + src + "]" if in_list else src}, reverse={rev_arg}, na_last={na_last}); the key vector is named {key_vec._name!r} and holds {keyvals}'
+    before = (view(t), view(key_vec))
+    fails = []
+    try:
+        res = t.sort_by(by, reverse=rev_arg, na_last=na_last)
+    except Exception as e:
+        return [Fail(f'{PID}:{site}:raises:{type(e).__name__}', f'{descr}: raised {e!r}', None, repr(e), f'{PID}:sort_by:post')]
+    m = truthful(res)
+    if m:
+        fails.append(Fail('C03:sort_by:truthful', f'{descr}: {m}', None, m))
+    keycols = [[0] * n, keyvals] if in_list else [keyvals]
+    want_pos = sort_oracle(keycols, revs, na_last)
+    try:
+        got_rows = rows_of(res)
+    except AssertionError as e:
+        return fails + [Fail(f'{PID}:{site}:ragged-result', f'{descr}: {e}', None, str(e))]
+    if list(res.column_names()) != list(t.column_names()):
+        return fails + [Fail(f'{PID}:{site}:column-names', f'{descr}: columns changed', list(t.column_names()), list(res.column_names()))]
+    got_pos = [r[0] for r in got_rows]
+    if sorted(map(repr, got_pos)) != sorted(map(repr, range(n))):
+        return fails + [Fail(fail_key(site, 'not-a-permutation', revs), f'{descr}: the pos column of the result is not a permutation of 0..{n - 1}',
+                             list(range(n)), got_pos, f'{PID}:sort_by:gather')]
+    if any(not same(tuple(r), tuple(in_rows[r[0]])) for r in got_rows):
+        return fails + [Fail(fail_key(site, 'cells-not-kept-together', revs), f'{descr}: an output row is not the input row its pos cell came from',
+                             [in_rows[p] for p in got_pos], got_rows, f'{PID}:sort_by:gather')]
+    if got_pos != want_pos:
+        by_stored = sort_oracle(([[0] * n] if in_list else []) + [list(vals) if not form.startswith('dup') else (other if form == 'dup-second' else list(vals))],
+                                revs, na_last)
+        cls = 'ordered-by-the-stored-column-of-that-name' if got_pos == by_stored else classify_sort(got_pos, want_pos, keycols, na_last)
+        fails.append(Fail(fail_key(site, cls, revs), f'{descr}: row order (original positions) is not the order of the key vector that was passed',
+                          want_pos, got_pos, f'{PID}:sort_by:loop[keys]:inv'))
+    if (view(t), view(key_vec)) != before:
+        fails.append(Fail(f'{PID}:{site}:input-modified', f'{descr}: the table or the key vector changed', before, (view(t), view(key_vec))))
+    return fails
+
+
 def evaluate(case):
+    if case['op'] == 'derived':
+        return eval_derived(case)
     return eval_table(case) if case['op'] == 'table' else eval_vector(case)
 
 
@@ -203,24 +326,37 @@ def nontrivial(case):
             return None
         return ('v', case['pool'], len(vals), sum(x is None for x in vals), len({repr(x) for x in vals}) < len(vals),
                 case['reverse'], case['na_last'])
+    if case['op'] == 'derived':
+        vals = case['vals']
+        if len(vals) < 2:
+            return None
+        return ('d', case['form'], len(vals), sum(x is None for x in vals), len(set(vals)) < len(vals), vals != vals[::-1],
+                case['reverse'], case['na_last'], case['in_list'])
     rows = [tuple(r) for r in case['rows']]
     if len(rows) < 2:
         return None
     return ('t', case['nk'], case['mode'], len(rows), repr(case['reverse']), case['na_last'],
             len(set(rows)) < len(rows), any(None in r for r in rows),
-            any(a[0] == b[0] and a != b for a in rows for b in rows))
+            any(a[0] == b[0] and a != b for a in rows for b in rows)) + (('ties',) if case.get('block') == 'ties' else ())
 
 
 def bound(tier):
     return {'table_blocks': [{'key_columns': b[0], 'rows': [b[1], b[2]], 'settings': b[3]} for b in table_blocks(tier)],
             'key_values': '{None,0,1}', 'reverse': 'False, True and every per-key list', 'na_last': [True, False],
-            'key_modes': MODES3, 'vector_pools': [[repr(x) for x in p] for _, p in VEC_POOLS], 'vector_max_len': 4}
+            'key_modes': MODES3, 'vector_pools': [[repr(x) for x in p] for _, p in VEC_POOLS], 'vector_max_len': 4,
+            'derived_key_forms': DERIVED_FORMS, 'derived_key_values': repr(DERIVED_VALS),
+            'derived_rows': 'all settings up to %d rows, 2 rotating settings up to %d rows' % ((3, 4) if tier == 'quick' else (4, 5)),
+            'tie_blocks(nk, values, min_rows, max_rows)': [(2, [0, 1, 2], 3, 3), (2, [0, 1], 4, 4), (3, [0, 1], 3, 3)] if tier == 'quick'
+            else [(2, [0, 1, 2], 3, 4), (2, [0, 1], 5, 5), (3, [0, 1], 3, 4)]}
 
 
 if __name__ == '__main__':
     main(PID, cases, evaluate,
          rule='every table of each block (key rows over {None,0,1} + position and tag columns), settings in full or rotating with the '
               'table index as stated, key mode rotating; every vector of length <=4 over the pools x reverse x na_last; compared with '
-              'the pairwise stable-lexicographic contract; permutation / cells together / input unchanged / idempotent. distinct = '
+              'the pairwise stable-lexicographic contract; permutation / cells together / input unchanged / idempotent; plus keys passed as '
+              'derived / external vectors that carry a column name (-t.age, abs(t.age), external Vector named like a column, either of two '
+              'same-named columns as vector object) ordered by the passed vector, and None-free multi-key tables with ties in a non-last '
+              'key under every direction list. distinct = '
               'distinct (kind, nk, mode, rows, reverse, na_last, duplicate rows, None key, first-key tie) signatures',
          bound=bound, nontrivial=nontrivial)
